@@ -9,7 +9,7 @@ import os
 
 PROPERTY = 'C03'
 FUNCTIONS = ['frappy.datatypes.ScaledInteger.{__call__,export_value,import_value,export_datatype} (translated from the AST into QF_FP)']
-ASSUMPTIONS = ['IEEE lemmas: scale from {0.1, 0.01, 0.001, 0.5, 3, 2**-10, 0.2}, grid index a signed bit-vector of 10 (quick) / 13 (thorough) bits (idempotence lemma: 6 / 9 bits); '
+ASSUMPTIONS = ['IEEE lemmas: scale from {0.1, 0.01, 0.001, 0.5, 3, 2**-10, 0.2}, grid index a signed bit-vector of 9 (quick) / 13 (thorough) bits (idempotence lemma: 5 / 9 bits); '
                'limits are the doubles nearest to k*scale written as a decimal; z3 QF_FP with a time cap - a timed out lemma is inconclusive']
 REQUIRED_TAGS = ['lemma-holds']
 LIMITS = {'quick': {'max_s': 400}, 'thorough': {'max_s': 2000}}
@@ -18,7 +18,7 @@ LEMMAS = ('export-datatype-limit', 'export-import-roundtrip', 'call-idempotent',
 
 
 def cases(tier):
-    bits = 13 if tier == 'thorough' else 10
+    bits = 13 if tier == 'thorough' else 9
     out = []
     for s in SCALES:
         for lm in LEMMAS:
